@@ -3,7 +3,7 @@
 #include <unistd.h>
 
 static const struct { const char *id; int (*fn)(void); } g_props[] = {
-	{ "selftest", selftest }, { "C05child", p_c05_child },
+	{ "selftest", selftest }, { "C05child", p_c05_child }, { "C12child", p_c12_child },
 	{ "C01", p_codec }, { "C02", p_codec }, { "C03", p_codec }, { "C04", p_codec }, { "C07", p_codec },
 	{ "C08", p_codec }, { "C10", p_codec }, { "C11", p_codec },
 	{ "C05", p_c05 }, { "C06", p_c06 }, { "C09", p_c09 }, { "C12", p_c12 }, { "C13", p_c13 }, { "C14", p_c14 },
